@@ -242,8 +242,15 @@ Ltac invA_auto s IC I H :=
   step_cases H;
   (constructor; [constructor|]); simpl; intros; try solve [auto]; cnt_tac;
   cnt_special Ahwg Arwg Ahb1 Amb Aloop2;
-  upd_all; try solve [auto]; try (timeout 10 fin);
-  inst_all; try (inst_with (nextm s)); try (timeout 10 fin); try (timeout 10 fin2); try (timeout 10 fin4).
+  upd_all; try solve [auto];
+  (* the one goal on which the general finishers diverge is dispatched by its shape first (no time-outs anywhere) *)
+  try (match goal with
+       | Hl : lp ?s0 ?h = LLocked ?m, Hp : pp ?s0 ?h0 = PSend ?m |- _ = MPump ?h0 =>
+           solve [exfalso; pose proof (Apump2 h0 m Hp);
+                  assert (mp s0 m = MLoop h) by (apply Aloop2; rewrite Hl; simpl; apply Nat.eqb_refl); congruence]
+       end);
+  fin;
+  inst_all; try (inst_with (nextm s)); fin; fin2; fin4.
 
 Lemma InvA_LClose s c s' : InvC s -> InvA' s -> step s (LClose c) = Some s' -> InvA' s'.
 Proof.
@@ -318,11 +325,6 @@ Qed.
 Lemma InvA_LLoop s h s' : InvC s -> InvA' s -> step s (LLoop h) = Some s' -> InvA' s'.
 Proof.
   intros IC I H. invA_auto s IC I H.
-  all: match goal with
-    | Hl : lp ?s ?h = LLocked ?m, Hp : pp ?s ?h0 = PSend ?m |- _ = MPump ?h0 =>
-        exfalso; pose proof (Apump2 h0 m Hp);
-        assert (mp s m = MLoop h) by (apply Aloop2; rewrite Hl; simpl; apply Nat.eqb_refl); congruence
-    end.
 Qed.
 
 Lemma InvA_LPump s h s' : InvC s -> InvA' s -> step s (LPump h) = Some s' -> InvA' s'.
@@ -379,6 +381,9 @@ Proof. intros IC I H. invA_auto s IC I H. Qed.
 Lemma InvA_LRh s r s' : InvC s -> InvA' s -> step s (LRh r) = Some s' -> InvA' s'.
 Proof. intros IC I H. invA_auto s IC I H. Qed.
 
+Lemma InvA_LFail s m s' : InvC s -> InvA' s -> step s (LFail m) = Some s' -> InvA' s'.
+Proof. intros IC I H. invA_auto s IC I H. Qed.
+
 Lemma InvA'_init_u n u hon f5 f6 f12 f16 : InvA' (init_u n u hon f5 f6 f12 f16).
 Proof.
   constructor; [apply InvA_init_u|]. simpl. intros h m. destruct (Nat.ltb h n); discriminate.
@@ -394,6 +399,7 @@ Proof.
   - eapply InvA_LEmit; eassumption.
   - eapply InvA_LChanClose; eassumption.
   - eapply InvA_LFinish; eassumption.
+  - eapply InvA_LFail; eassumption.
   - eapply InvA_LTimeout; eassumption.
   - eapply InvA_LRhCall; eassumption.
   - eapply InvA_LSubCloseRet; eassumption.
